@@ -17,8 +17,8 @@ ACTIVE = "active_operations"
 RECORD = "acquired_resources"
 
 
-def _terminators(p, ctrl, res):
-    """controller methods that take an operation out of the active map"""
+def _delisters(p, ctrl):
+    """controller methods that directly take an operation out of the active map"""
     out = []
     for m in ctrl.methods.values():
         for kind, n in attr_writes(m.node, ACTIVE, "self"):
@@ -28,10 +28,43 @@ def _terminators(p, ctrl, res):
     return out
 
 
+def _terminators(p, ctrl, res):
+    """controller methods that take an operation out of the active map — themselves or through a helper they call
+    (complete_operation/abort_operation may share a private retire routine).  Read-only accessors and the
+    registration are not terminators: a terminator must reach a de-lister."""
+    direct = {m.key for m in _delisters(p, ctrl)}
+    out = []
+    for m in ctrl.methods.values():
+        if any(g.key in direct for g in res.reachable_from(m) if g.cls is ctrl):
+            out.append(m)
+    return out
+
+
+def _always(cfg_of_, res, g, ctrl, led, is_site, memo, stack=()):
+    """every entry→return path of g passes a node for which is_site(g, call-or-stmt) holds, or a call of a
+    controller helper for which the same is true (summaries through helpers, recursion cut)"""
+    if g.key in memo:
+        return memo[g.key]
+    if g.key in stack:
+        return False
+    tc = cfg_of_(g, led)
+    sites = set()
+    for n in walk_no_nested(g.node):
+        if is_site(g, n):
+            sites.add(tc.node_of(n))
+        elif isinstance(n, ast.Call):
+            for h in res.resolve_call(g, n):
+                if h.cls is ctrl and h is not g and _always(cfg_of_, res, h, ctrl, led, is_site, memo, stack + (g.key,)):
+                    sites.add(tc.node_of(n))
+    r = bool(sites) and tc.escapes(starts=[tc.entry], through=sites, targets=[tc.exit]) is None
+    memo[g.key] = r
+    return r
+
+
 def run(p, led, tier):
     res = Resolver(p)
     led.explanation = (
-        "Path rules over the CFG (exception edges included) of CoordinationSystem.execute_operation and the "
+        "Path rules over the CFG (exception edges included) of CoordinationSystem.execute_operation and the controller terminators (helpers summarised); ordering of work / validation / success and release on every exit decided by abstract interpretation of execute_operation with adversarial checkpoints, work and validation (fault table); "
         "controller's terminators, effect summaries of ResourceLock.try_acquire/release, and package-wide "
         "who-may-write rules for the active map and lock ownership. Decides: no exit without "
         "complete/abort; terminators release and de-list; a record is forgotten only when ownership is "
@@ -43,7 +76,7 @@ def run(p, led, tier):
     led.rule("C14-R1b", "each terminator releases all resources and removes the operation from the active map on every path", 2)
     led.rule("C14-R2", "the controller forgets its record of a resource only on a path where lock ownership is cleared", 1)
     led.rule("C14-R3", "release mutates the lock only under the owner test; release-all iterates only the operation's own record", 2)
-    led.rule("C14-R4", "work runs once, only after all acquisitions held and the G1 checkpoint; validation only after work; success only after work, validation, commit", 4)
+    led.rule("C14-R4", "work runs once, only while all requested resources are held and after the G1 checkpoint passed; validation only after work succeeded; success only after work, validation and checkpoints (decided on every interpreted path of the fault table)", 5)
     led.rule("C14-R5", "only terminators remove from the active map; only ResourceLock methods write owner/hold_count; every kill path goes through abort_operation", 3)
 
     system = p.cls("CoordinationSystem", "operon_ai/coordination/system.py")
@@ -85,42 +118,30 @@ def run(p, led, tier):
             led.ok("C14-R1", key, where(execop, rc),
                    f"with nodes {sorted(x.line for x in term_nodes)} removed, neither RETURN nor RAISE is reachable from the normal edge of the registration ({cfg.stats()['nodes']} CFG nodes, exception edges included)")
 
-    # ---------------- R1b: terminators
+    # ---------------- R1b: terminators (public entry points of the closure; helpers are summarised)
     relall = p.find_method(ctrl, "release_all_resources")
-    for t in terms:
-        tc = cfg_of(t, led)
-        # releases everything
-        rel_nodes = set()
-        for n in walk_no_nested(t.node):
-            if isinstance(n, ast.Call):
-                for g in res.resolve_call(t, n):
-                    if _releases_all(p, res, g, ctrl):
-                        rel_nodes.add(tc.node_of(n))
-        key = f"CellCycleController.{t.name} ▸ release-all"
-        if not rel_nodes:
-            led.fail("C14-R1b", key, where(t, t.node), "terminator never calls a routine that releases every recorded resource")
-        else:
-            path = tc.escapes(starts=[tc.entry], through=rel_nodes, targets=[tc.exit])
-            if path:
-                led.fail("C14-R1b", key, where(t, t.node), "a return is reachable without releasing the operation's resources", path=tc.fmt_path(path))
-            else:
-                led.ok("C14-R1b", key, where(t, t.node), "every entry→return path passes the release-all call")
-        # de-lists: the del node is passed on every path except the false edge of a membership test on the same map
-        del_nodes = {tc.node_of(n) for k, n in attr_writes(t.node, ACTIVE, "self") if k in ("subscript-del", "mutcall:pop")}
+    called_by_term = {g.key for t in terms for n in walk_no_nested(t.node) if isinstance(n, ast.Call) for g in res.resolve_call(t, n) if g.cls is ctrl and g is not t}
+    outer = [t for t in terms if t.key not in called_by_term] or terms
+    memo_rel, memo_del = {}, {}
 
-        def cut(a, b, lab):
-            if a.kind == "test" and lab == "F":
-                for atom, pol in edge_facts(a.ast, "F"):
-                    if (not pol and isinstance(atom, ast.Compare) and isinstance(atom.ops[0], ast.In)
-                            and mentions_attr(atom.comparators[0], ACTIVE)):
-                        return True
-            return False
-        path = tc.escapes(starts=[tc.entry], through=del_nodes, targets=[tc.exit], cut=cut)
-        key = f"CellCycleController.{t.name} ▸ de-list"
-        if path:
-            led.fail("C14-R1b", key, where(t, t.node), "a return is reachable with the operation still in the active map", path=tc.fmt_path(path))
+    def is_release_site(g, n):
+        return isinstance(n, ast.Call) and any(_releases_all(p, res, h, ctrl) for h in res.resolve_call(g, n))
+
+    def is_delist_site(g, n):
+        return any(n is w for k, w in attr_writes(g.node, ACTIVE, "self") if k in ("subscript-del", "mutcall:pop"))
+    for t in outer:
+        key = f"CellCycleController.{t.name} ▸ release-all"
+        if _always(cfg_of, res, t, ctrl, led, is_release_site, memo_rel):
+            led.ok("C14-R1b", key, where(t, t.node), "every entry→return path passes a release-all call (directly or in a helper all of whose paths do)")
         else:
+            tc = cfg_of(t, led)
+            led.fail("C14-R1b", key, where(t, t.node), "a return is reachable without releasing the operation's resources")
+        # de-lists: the del node is passed on every path except the false edge of a membership test on the same map
+        key = f"CellCycleController.{t.name} ▸ de-list"
+        if _always_delists(res, t, ctrl, led, {}):
             led.ok("C14-R1b", key, where(t, t.node), "every entry→return path deletes the operation from the active map (or the map does not contain it)")
+        else:
+            led.fail("C14-R1b", key, where(t, t.node), "a return is reachable with the operation still in the active map")
 
     # ---------------- R2: record forgotten only when ownership cleared
     release = p.find_method(lock, "release")
@@ -222,120 +243,6 @@ def run(p, led, tier):
             else:
                 led.fail("C14-R3", key, where(relres, c), "release is requested with an owner other than the operation's id")
 
-    # ---------------- R4: ordering in execute_operation
-    params = execop.params()
-    if "work_fn" not in params or "validate_fn" not in params:
-        raise AnchorError("execute_operation lost its work_fn / validate_fn parameters")
-    work_calls = [c for c in calls_named(execop.node, "work_fn") if isinstance(c.func, ast.Name)]
-    val_calls = [c for c in calls_named(execop.node, "validate_fn") if isinstance(c.func, ast.Name)]
-    key = "CoordinationSystem.execute_operation ▸ work_fn()"
-    if len(work_calls) != 1:
-        led.fail("C14-R4", key, where(execop, execop.node), f"work function is called at {len(work_calls)} sites (must be exactly one)")
-        return
-    wn = cfg.node_of(work_calls[0])
-    if in_cycle(cfg, wn):
-        led.fail("C14-R4", key + " ▸ once", where(execop, work_calls[0]), "work call lies on a CFG cycle: it can run more than once")
-    else:
-        led.ok("C14-R4", key + " ▸ once", where(execop, work_calls[0]), "single call site, not on any CFG cycle")
-    # acquisitions: loop calling acquire_resource; for each non-holding result of try_acquire the walk must not reach work
-    acq_calls = calls_named(execop.node, "acquire_resource")
-    if not acq_calls:
-        raise AnchorError("execute_operation no longer calls acquire_resource")
-    holding, nonholding = _acquire_summary(p, tryacq, led)
-    led.extra["try_acquire_summary"] = {"holding": sorted(holding), "non_holding": sorted(nonholding)}
-    for ac in acq_calls:
-        an = cfg.node_of(ac)
-        st = an.ast
-        var = None
-        if isinstance(st, ast.Assign) and isinstance(st.targets[0], ast.Name):
-            var = st.targets[0].id
-        loop = _enclosing_loop(ac)
-        for member in sorted(nonholding):
-            key2 = f"{key} ▸ acquire result {member} must not proceed"
-            if var is None:
-                led.fail("C14-R4", key2, where(execop, ac), "result of acquire_resource is discarded: a BLOCKED acquisition proceeds to work")
-                continue
-            starts = [(a, b, l) for a, b, l in cfg.out_edges(an) if l != "exc"]
-            r = walk_folded(cfg, starts, {var: {f"LockResult.{member}"}})
-            bad = None
-            if wn in r:
-                bad = wn
-            elif loop is not None and cfg.node_of(loop.iter) in r:
-                bad = cfg.node_of(loop.iter)
-            if bad is not None:
-                led.fail("C14-R4", key2, where(execop, ac),
-                         f"with acquire result {member} (lock not held) control continues to {'the work call' if bad is wn else 'the next acquisition / work'}",
-                         path=cfg.fmt_path(folded_path(r, bad)))
-            else:
-                led.ok("C14-R4", key2, where(execop, ac), f"folding `{var} == LockResult.{member}` through the following tests: only the abort handler is reachable")
-        # work only after loop exhausted
-        if loop is not None:
-            ln = cfg.node_of(loop.iter)
-            seen = cfg.reach(starts=[cfg.entry], cut=lambda a, b, l, _ln=ln: a is _ln and l == "F")
-            key2 = f"{key} ▸ after all acquisitions"
-            if wn in seen:
-                led.fail("C14-R4", key2, where(execop, work_calls[0]), "work call reachable without exhausting the acquisition loop", path=cfg.fmt_path(cfg.witness(seen, wn)))
-            else:
-                led.ok("C14-R4", key2, where(execop, work_calls[0]), "work reachable only through the exhausted edge of the acquisition loop")
-    # G1 checkpoint: work is guarded by a PASSED comparison of an advance() result
-    facts = guard_facts(cfg, wn)
-    g1 = [f for f in facts if _passed_fact(f[0], f[1])]
-    key2 = f"{key} ▸ checkpoint"
-    if g1:
-        led.ok("C14-R4", key2, where(execop, work_calls[0]), f"dominated by `{short(g1[0][0])}` = {g1[0][1]}")
-    else:
-        led.fail("C14-R4", key2, where(execop, work_calls[0]), "work call not dominated by a passed checkpoint test")
-    # validation only after work's normal completion
-    for vc in val_calls:
-        vn = cfg.node_of(vc)
-        seen = cfg.reach(starts=[cfg.entry], cut=lambda a, b, l: a is wn and l != "exc")
-        key2 = "CoordinationSystem.execute_operation ▸ validate_fn() ▸ after work"
-        if vn in seen:
-            led.fail("C14-R4", key2, where(execop, vc), "validation reachable without the work call having completed normally", path=cfg.fmt_path(cfg.witness(seen, vn)))
-        else:
-            led.ok("C14-R4", key2, where(execop, vc), "validation unreachable once the normal out-edges of the work call are cut")
-    # success=True return: after work (normal), after validation true (when present), after complete_operation
-    succ_returns = []
-    for n in walk_no_nested(execop.node):
-        if isinstance(n, ast.Return) and isinstance(n.value, ast.Call):
-            for kw in n.value.keywords:
-                if kw.arg == "success" and not (isinstance(kw.value, ast.Constant) and kw.value.value is False):
-                    succ_returns.append(n)
-    if not succ_returns:
-        raise AnchorError("execute_operation has no success result site")
-    for sr in succ_returns:
-        sn = cfg.node_of(sr)
-        key2 = f"CoordinationSystem.execute_operation ▸ {short(sr.value, 40)} success"
-        problems = []
-        seen = cfg.reach(starts=[cfg.entry], cut=lambda a, b, l: a is wn and l != "exc")
-        if sn in seen:
-            problems.append(("reachable without work completing", cfg.fmt_path(cfg.witness(seen, sn))))
-        for vc in val_calls:
-            vn = cfg.node_of(vc)
-            if vn.kind == "test":
-                bad_label = None
-                for lab in ("T", "F"):
-                    for atom, pol in edge_facts(vn.ast, lab):
-                        if atom is vc and pol is False:
-                            bad_label = lab
-                if bad_label is None:
-                    problems.append(("validation result is not tested", None))
-                else:
-                    se = [(vn, m, l) for m, l in vn.succ if l in (bad_label, "exc")]
-                    s2 = cfg.reach(start_edges=se)
-                    if sn in s2:
-                        problems.append(("reachable after validation returned false or raised", cfg.fmt_path(cfg.witness(s2, sn))))
-            else:
-                problems.append(("validation result is not tested", None))
-        commit_nodes = {n for n in term_nodes}
-        s3 = cfg.reach(starts=[cfg.entry], avoid=commit_nodes)
-        if sn in s3:
-            problems.append(("reachable without commit", cfg.fmt_path(cfg.witness(s3, sn))))
-        if problems:
-            led.fail("C14-R4", key2, where(execop, sr), "; ".join(x for x, _ in problems), path=next((pth for _, pth in problems if pth), None))
-        else:
-            led.ok("C14-R4", key2, where(execop, sr), "dominated by normal completion of work, by the true edge of validation and by the commit call")
-
     # ---------------- R5: who may write
     for fi, kind, n in package_attr_writes(p, ACTIVE, None):
         if kind in ("subscript-del", "mutcall:pop", "mutcall:clear", "mutcall:popitem", "del", "assign", "subscript-store", "mutcall:update", "setattr"):
@@ -377,11 +284,36 @@ def run(p, led, tier):
             if named:
                 led.ok("C14-R5", key, where(m, named[0]), f"calls {short(named[0], 50)} (receiver resolved by name)")
             else:
-                led.fail("C14-R5", key, where(m, m.node), "kill path no longer goes through abort_operation")
+                led.fail("C14-R5", key, where(m, m.node), "kill path no longer goes through a controller terminator (abort_operation)")
     fault_table(p, led, tier)
 
 
 # ----------------------------------------------------------------------
+def _always_delists(res, g, ctrl, led, memo, stack=()):
+    if g.key in memo:
+        return memo[g.key]
+    if g.key in stack:
+        return False
+    tc = cfg_of(g, led)
+    sites = {tc.node_of(n) for k, n in attr_writes(g.node, ACTIVE, "self") if k in ("subscript-del", "mutcall:pop")}
+    for n in walk_no_nested(g.node):
+        if isinstance(n, ast.Call):
+            for h in res.resolve_call(g, n):
+                if h.cls is ctrl and h is not g and _always_delists(res, h, ctrl, led, memo, stack + (g.key,)):
+                    sites.add(tc.node_of(n))
+
+    def cut(a, b, lab):
+        if a.kind == "test" and lab == "F":
+            for atom, pol in edge_facts(a.ast, "F"):
+                if (not pol and isinstance(atom, ast.Compare) and isinstance(atom.ops[0], ast.In)
+                        and mentions_attr(atom.comparators[0], ACTIVE)):
+                    return True
+        return False
+    r = bool(sites) and tc.escapes(starts=[tc.entry], through=sites, targets=[tc.exit], cut=cut) is None
+    memo[g.key] = r
+    return r
+
+
 def _record_loops(g):
     """outermost loops of g that walk the operation's record: `for … in <mentions RECORD>` or
     `while <var>` where var was defined from an expression mentioning RECORD"""
@@ -576,8 +508,10 @@ def fault_table(p, led, tier):
     prestates = list(itertools.product(("free", "held", "preemptable"), repeat=len(names)))
     led.rule("C14-R6", "for every request list × resource pre-state × fault at each callback step: afterwards the operation owns nothing, is not active, foreign locks are untouched, work ran at most once while holding everything, validation only after work, success only if both succeeded", 20)
     bad = []
+    bad4 = []
     n_runs = [0]
     n_paths = [0]
+    n_work = [0]
     for req in lists:
         for pre in prestates:
             def go(o):
@@ -594,25 +528,35 @@ def fault_table(p, led, tier):
                         other.fields["acquired_resources"][nm_] = lk
                     c.fields["resources"][nm_] = lk
                 # user checkpoints on G1, S, G2: arbitrary predicates (return anything / raise)
+                log = []
+
+                def mk_cp(ph):
+                    @stub
+                    def cond(interp, args, kwargs):
+                        k = interp.o.choose(3, f"user checkpoint {ph}: passes / fails / raises")
+                        log.append(("checkpoint", ph, k == 0))
+                        if k == 2:
+                            raise PyRaise(ExcVal("RuntimeError", (f"checkpoint {ph} crashed",)))
+                        return k == 0
+                    return cond
                 for ph in ("G1", "S", "G2"):
                     phv = it.enum_member(PH, ph)
                     default = c.fields["checkpoints"].get(phv, [])
-                    c.fields["checkpoints"][phv] = list(default) + [it.instantiate(cp_cls, [], dict(phase=phv, condition=Unknown(f"user_checkpoint_{ph}"), name=f"user_{ph}"))]
-                log = []
+                    c.fields["checkpoints"][phv] = list(default) + [it.instantiate(cp_cls, [], dict(phase=phv, condition=mk_cp(ph), name=f"user_{ph}"))]
 
                 @stub
                 def work(interp, args, kwargs):
                     owned = {nm_: c.fields["resources"][nm_].fields["owner"] for nm_ in set(req)}
-                    log.append(("work", owned))
                     k = interp.o.choose(2, "work returns / raises")
+                    log.append(("work", owned, k == 0, [x for x in log if x[0] == "checkpoint"]))
                     if k == 1:
                         raise PyRaise(ExcVal("RuntimeError", ("work failed",)))
                     return "result"
 
                 @stub
                 def validate(interp, args, kwargs):
-                    log.append(("validate", len([x for x in log if x[0] == "work"])))
                     k = interp.o.choose(3, "validate true / false / raises")
+                    log.append(("validate", len([x for x in log if x[0] == "work"]), k == 0, len([x for x in log if x[0] == "work" and x[2]])))
                     if k == 2:
                         raise PyRaise(ExcVal("RuntimeError", ("validator failed",)))
                     return k == 0
@@ -623,7 +567,7 @@ def fault_table(p, led, tier):
                 except PyRaise as e:
                     res = dict(raised=repr(e.exc))
                 locks_ = {nm_: (c.fields["resources"][nm_].fields["owner"], c.fields["resources"][nm_].fields["hold_count"]) for nm_ in names}
-                res.update(locks=locks_, active="op" in c.fields["active_operations"], log=log)
+                res.update(locks=locks_, active="op" in c.fields["active_operations"], log=log, validated=use_validate)
                 return res
             try:
                 paths = explore(go, max_paths=4000)
@@ -647,16 +591,35 @@ def fault_table(p, led, tier):
                         bad.append(f"{tag}: resource {nm_} held by another (not pre-emptable) operation was disturbed: owner={own} hold_count={hc}")
                 works = [x for x in r["log"] if x[0] == "work"]
                 if len(works) > 1:
-                    bad.append(f"{tag}: work function ran {len(works)} times")
+                    bad4.append(("once", f"{tag}: work function ran {len(works)} times"))
                 for w in works:
                     if any(o_ != "op" for o_ in w[1].values()):
-                        bad.append(f"{tag}: work ran while not holding {[k for k, v in w[1].items() if v != 'op']}")
-                for v in [x for x in r["log"] if x[0] == "validate"]:
-                    if v[1] != 1:
-                        bad.append(f"{tag}: validation ran with work executed {v[1]} times")
+                        bad4.append(("holding", f"{tag}: work ran while not holding {[k for k, v in w[1].items() if v != 'op']}"))
+                    g1 = [x for x in w[3] if x[1] == "G1"]
+                    if not g1 or not all(x[2] for x in g1):
+                        bad4.append(("checkpoint", f"{tag}: work ran although the G1 checkpoint {'failed' if g1 else 'was never consulted'}"))
+                vals = [x for x in r["log"] if x[0] == "validate"]
+                for v in vals:
+                    if v[1] != 1 or v[3] != 1:
+                        bad4.append(("validate-after-work", f"{tag}: validation ran with work executed {v[1]} times ({v[3]} successfully): validation must follow the successful completion of work"))
                 if r.get("success") is True:
-                    if not works:
-                        bad.append(f"{tag}: success reported although work never ran")
+                    if not works or not works[0][2]:
+                        bad4.append(("success", f"{tag}: success reported although work {'never ran' if not works else 'raised'}"))
+                    if r["validated"] and not (vals and vals[-1][2]):
+                        bad4.append(("success", f"{tag}: success reported although validation {'did not run' if not vals else 'did not return true'}"))
+                    g2 = [x for x in r["log"] if x[0] == "checkpoint" and not x[2]]
+                    if g2:
+                        bad4.append(("success", f"{tag}: success reported although checkpoint {g2[0][1]} did not pass"))
+                n_work[0] += len(works)
+    R4 = [("once", "work_fn() ▸ once"), ("holding", "work_fn() ▸ only while every requested resource is held (acquire results BLOCKED/… must not proceed)"), ("checkpoint", "work_fn() ▸ checkpoint"),
+          ("validate-after-work", "validate_fn() ▸ after work"), ("success", "success result ▸ only after work, validation and every checkpoint succeeded")]
+    for tagk, title in R4:
+        mine = sorted({m for k_, m in bad4 if k_ == tagk})
+        key4 = f"CoordinationSystem.execute_operation ▸ {title}"
+        if mine:
+            led.fail("C14-R4", key4, where(execop, execop.node), f"{len(mine)} case(s), e.g. {mine[0]}", path=mine[:8])
+        else:
+            led.ok("C14-R4", key4, where(execop, execop.node), f"{n_paths[0]} interpreted paths ({n_work[0]} executions of work): holds on every one")
     key = f"CoordinationSystem.execute_operation ▸ fault table ({len(lists)} request lists × {len(prestates)} pre-states, user checkpoints on G1/S/G2, work and validation adversarial)"
     if bad:
         uniq = sorted(set(bad))
